@@ -8,11 +8,14 @@ import (
 	"strconv"
 	"strings"
 	"sync"
+	"sync/atomic"
 	"time"
 
 	"math/big"
 
+	"gitlab.com/aquachain/aquachain/common"
 	"gitlab.com/aquachain/aquachain/core"
+	"gitlab.com/aquachain/aquachain/core/types"
 	"verifharness/hx"
 )
 
@@ -320,4 +323,206 @@ func concurrentRun(run *hx.Run, r *hx.Rng) {
 	}
 	run.Case(h.Cfg.String()+" "+st.String()+" op=check o.hi="+strings.Join(hi, ";"), "res=ok "+st.String())
 	run.Count("concurrent:runs")
+}
+
+// ---- concurrent readers -----------------------------------------------------------------------------------------------
+
+// judgeReaderView checks one map handed out by Pending()/Content() — a fact of every linearisable snapshot: per sender
+// the pending transactions are that sender's, their nonces are consecutive (strictly increasing, no duplicate, no gap) and
+// the first one is the chain nonce of some block that has been the head; queued lists are strictly increasing.
+func judgeReaderView(w *World, pending, queued map[common.Address]types.Transactions, submitted *[nAccounts]int64) (string, string) {
+	for a, txs := range pending {
+		i, ok := w.idx[a]
+		if !ok {
+			return "reader-unique", "pending list of an unknown account"
+		}
+		for k, tx := range txs {
+			if tx == nil {
+				return "reader-run", fmt.Sprintf("account %d: nil entry at position %d of %d", i, k, len(txs))
+			}
+			t := w.Abs(tx)
+			if t.S != i {
+				return "reader-unique", fmt.Sprintf("pending list of %d holds %v", i, t)
+			}
+			if k > 0 && tx.Nonce() != txs[k-1].Nonce()+1 {
+				return "reader-run", fmt.Sprintf("account %d: position %d of %d holds nonce %d after nonce %d: not an ordered gap-free run", i, k, len(txs), tx.Nonce(), txs[k-1].Nonce())
+			}
+		}
+		if len(txs) > 0 && !w.WasHeadNonce(i, txs[0].Nonce()) {
+			return "reader-run", fmt.Sprintf("account %d: pending starts at nonce %d, which was never the chain nonce", i, txs[0].Nonce())
+		}
+		if n := atomic.LoadInt64(&submitted[i]); int64(len(txs)) > n {
+			return "reader-run", fmt.Sprintf("account %d: %d pending handed out, only %d ever submitted", i, len(txs), n)
+		}
+	}
+	for a, txs := range queued {
+		i := w.idx[a]
+		for k, tx := range txs {
+			if tx == nil || (k > 0 && tx.Nonce() <= txs[k-1].Nonce()) {
+				return "reader-unique", fmt.Sprintf("account %d: queued list not strictly increasing at position %d of %d", i, k, len(txs))
+			}
+		}
+	}
+	return "", ""
+}
+
+// readerStress: several goroutines read Pending()/Content()/Stats() in a tight loop while writers submit long runs,
+// replace pending transactions and move the head. Every view a reader obtains is judged; after quiescence the views are
+// read again (a corrupted sort cache would persist) and compared with the tables seen through the accessor.
+func readerStress(run *hx.Run, r *hx.Rng, perSender int) {
+	h := &History{Cfg: ACfg{PriceLimit: 1, PriceBump: 10, AccountSlots: 16, GlobalSlots: 4096, AccountQueue: 64, GlobalQueue: 1024}, GasLim: 100000}
+	for i := range h.Genesis {
+		h.Genesis[i] = AcctSt{Nonce: 0, Balance: 1 << 50}
+	}
+	w := NewWorld()
+	sim := NewSim(w, h)
+	defer sim.Close()
+	var rmu sync.Mutex
+	var submitted [nAccounts]int64
+	reported := 0
+	fail := func(kind, where, detail string) {
+		rmu.Lock()
+		defer rmu.Unlock()
+		if reported < 5 {
+			reported++
+			run.Violate("concurrent-"+kind, "concurrent-"+kind, map[string]interface{}{"section": "reader-stress", "seed": run.Seed}, where+": "+detail)
+		}
+	}
+	run.Current("reader stress")
+	var writers, readers sync.WaitGroup
+	stop := make(chan struct{})
+	// writers: two senders with long consecutive runs and occasional replacements
+	for s := 0; s < 2; s++ {
+		writers.Add(1)
+		rg := r.Fork(uint64(s))
+		s := s
+		go func() {
+			defer writers.Done()
+			for n := 0; n < perSender; n++ {
+				atomic.AddInt64(&submitted[s], 1)
+				sim.pool.AddRemote(w.Tx(ATx{S: s, N: n, P: 10, G: 21000, V: 1}))
+				if n > 4 && rg.Intn(6) == 0 { // replace a recent pending transaction (same nonce, price bump)
+					sim.pool.AddRemote(w.Tx(ATx{S: s, N: n - 1 - rg.Intn(4), P: 12 + uint64(rg.Intn(3))*2, G: 21000, V: 1}))
+				}
+				run.Current("reader stress")
+			}
+		}()
+	}
+	// writer: the head advances over what is pending, sometimes after stepping back one block
+	writers.Add(1)
+	rh := r.Fork(77)
+	go func() {
+		defer writers.Done()
+		for i := 0; i < perSender/25; i++ {
+			st := Observe(w, sim.pool)
+			base := w.Head()
+			if rh.Intn(5) == 0 && base.parent != nil {
+				base = base.parent
+			}
+			var cands []ATx
+			for a := 0; a < 2; a++ {
+				if l := st.Pend[a].Txs; len(l) > 0 {
+					cands = append(cands, l[:1+rh.Intn(minInt(len(l), 8))]...)
+				}
+			}
+			nw := w.Extend(base, 100000000, cands, [nAccounts]uint64{})
+			w.SetHead(nw)
+			w.feed.Send(core.ChainHeadEvent{Block: nw.blk})
+			time.Sleep(2 * time.Millisecond)
+		}
+	}()
+	views := int64(0)
+	for g := 0; g < 6; g++ {
+		readers.Add(1)
+		g := g
+		go func() {
+			defer readers.Done()
+			defer func() {
+				if e := recover(); e != nil {
+					fail("reader-panic", "reader", fmt.Sprint(e))
+				}
+			}()
+			for k := 0; ; k++ {
+				select {
+				case <-stop:
+					return
+				default:
+				}
+				var kind, detail string
+				switch (k + g) % 3 {
+				case 0:
+					p, _ := sim.pool.Pending()
+					kind, detail = judgeReaderView(w, p, nil, &submitted)
+				case 1:
+					p, q := sim.pool.Content()
+					kind, detail = judgeReaderView(w, p, q, &submitted)
+				default:
+					sim.pool.Stats()
+				}
+				atomic.AddInt64(&views, 1)
+				if kind != "" {
+					fail(kind, "view handed to a concurrent reader", detail)
+				}
+			}
+		}()
+	}
+	done := make(chan struct{})
+	go func() { writers.Wait(); close(done) }()
+	select {
+	case <-done:
+	case <-time.After(120 * time.Second):
+		fail("hang", "reader stress", "writers did not finish within 120 s")
+	}
+	close(stop)
+	readers.Wait()
+	for sim.pool.VerifHeadBacklog() > 0 {
+		time.Sleep(time.Millisecond)
+	}
+	time.Sleep(5 * time.Millisecond)
+	// quiescence: read again (twice, from several goroutines first so that a cold cache is rebuilt concurrently once more)
+	var again sync.WaitGroup
+	for g := 0; g < 4; g++ {
+		again.Add(1)
+		go func() { defer again.Done(); sim.pool.Pending(); sim.pool.Content() }()
+	}
+	again.Wait()
+	for round := 0; round < 2; round++ {
+		p, q := sim.pool.Content()
+		if kind, detail := judgeReaderView(w, p, q, &submitted); kind != "" {
+			fail(kind, "view after quiescence", detail)
+		}
+		p2, _ := sim.pool.Pending()
+		if kind, detail := judgeReaderView(w, p2, nil, &submitted); kind != "" {
+			fail(kind, "view after quiescence", detail)
+		}
+		// against the pool's own tables
+		st := Observe(w, sim.pool)
+		for i, a := range w.addrs {
+			got := w.AbsList(p2[a])
+			if len(got) != len(st.Pend[i].Txs) {
+				fail("reader-run", "view after quiescence", fmt.Sprintf("account %d: Pending() hands out %d transactions, the pending list holds %d", i, len(got), len(st.Pend[i].Txs)))
+				continue
+			}
+			for k := range got {
+				if got[k] != st.Pend[i].Txs[k] {
+					fail("reader-run", "view after quiescence", fmt.Sprintf("account %d: Pending() position %d is %v, the pending list has %v there", i, k, got[k], st.Pend[i].Txs[k]))
+					break
+				}
+			}
+		}
+		for _, f := range st.CheckInv(h.Cfg, false) {
+			fail(f.clause, "state after quiescence", f.detail)
+		}
+	}
+	rmu.Lock()
+	run.Hist["concurrent:reader-views"] += int(atomic.LoadInt64(&views))
+	run.Count("concurrent:reader-stress-runs")
+	rmu.Unlock()
+}
+
+func minInt(a, b int) int {
+	if a < b {
+		return a
+	}
+	return b
 }
